@@ -58,7 +58,7 @@ example : exMachine.endFailExact {} = true := by decide +kernel
     empty chunk, `a`, `end()` — every call after the FAIL answers FAIL -/
 example : exMachine.failClosed {} = true := by decide +kernel
 example : ({ exCtx with ro := { zeroLen := true, eof := true } } : RtCtx).emptyFails exMachine.failTarget = true := by decide +kernel
-example : exMachine.inTable (exCtx.start {}).1.state = true := by decide +kernel
+example : exCtx.startClosed = true := by decide +kernel
 example : (({ exCtx with ro := { zeroLen := true, eof := true } } : RtCtx).session {} [.feed [98] 0, .feed [] 0, .feed [97] 0, .endInput]).2
     = [("OK", 0), ("FAIL", 0), ("FAIL", 0), ("FAIL", 0), ("FAIL", 0)] := by decide +kernel
 /-- hypothesis of C17 (no data-pattern arm is taken on end-of-input) -/
